@@ -125,7 +125,11 @@ func (w *world) alCid(c cid.Cid) string {
 	// loaded partial log names a block we have never looked at; read it from the store.
 	n, err := w.api.D.Get(w.ctx, c)
 	if err == nil {
-		if e, err := w.ioDec.DecodeRawEntry(n, c, nil); err == nil {
+		dec := w.ioDec
+		if dec == nil {
+			dec = mustIO()
+		}
+		if e, err := dec.DecodeRawEntry(n, c, nil); err == nil {
 			return w.al(e)
 		}
 	}
